@@ -30,6 +30,8 @@ static std::string run_all(Rng& g, const GpInput& in, bool use_tree_sometimes) {
       stat("exec.paths");
     }
     emitM("ael-trace", trace.request(false, (int)ct, (int)fr), "ok");
+    if (!ael_trace().bad_join.empty())
+      emitF("join-of-distant-edges", "ct=" + std::to_string((int)ct) + " fr=" + std::to_string((int)fr) + " pc=" + (pc ? "1" : "0") + " subj=" + S(in.subj) + " clip=" + S(in.clip) + ": " + ael_trace().bad_join);
     stat("trace.items", ael_trace().nitems);
     if (!ok) emitF("execute-returned-false", "ct=" + std::to_string((int)ct) + " fr=" + std::to_string((int)fr) + " subj=" + S(in.subj) + " clip=" + S(in.clip));
     stat(std::string("opt.preserve_collinear.") + (pc ? "on" : "off"));
@@ -49,6 +51,11 @@ int main(int argc, char** argv) {
   { GpInput c; c.R = 100; c.kind = "corpus.squares"; c.subj = {rect_path(0, 0, 100, 100)}; c.clip = {rect_path(50, 37, 150, 141)}; corpus.push_back(c); }
   { GpInput c; c.R = 100; c.kind = "corpus.nested"; c.subj = {rect_path(0, 0, 100, 100), Path64{Point64(20, 20), Point64(20, 80), Point64(80, 83), Point64(77, 20)}}; c.clip = {rect_path(-30, 40, 130, 61)}; corpus.push_back(c); }
   { GpInput c; c.R = 1000; c.kind = "corpus.pentagram"; c.subj = {Path64{Point64(0, 1000), Point64(588, -809), Point64(-951, 309), Point64(951, 311), Point64(-588, -807)}}; c.clip = {rect_path(-400, -390, 410, 400)}; corpus.push_back(c); }
+  // an edge reaches an intermediate vertex P while its right neighbour still carries the x of an earlier crossing (= P.x) and the
+  // neighbour's top lies on the extension of the new edge: any join test that trusts the stale curr_x glues two distant edges
+  { GpInput c; c.R = 300; c.kind = "corpus.stale-curr_x-join"; c.subj = {Path64{Point64(60, 210), Point64(200, 0), Point64(150, 20), Point64(140, 60), Point64(100, 100)}}; c.clip = {Path64{Point64(80, 170), Point64(240, 90), Point64(190, 60)}}; corpus.push_back(c); }
+  // horizontal edges in general position: self-intersecting pentagon with a horizontal edge, triangle with a horizontal edge
+  { GpInput c; c.R = 400; c.kind = "corpus.horizontal-edges"; c.subj = {Path64{Point64(100, 240), Point64(140, 60), Point64(360, 60), Point64(380, 240), Point64(220, 20)}}; c.clip = {Path64{Point64(20, 40), Point64(260, 40), Point64(220, 220)}}; corpus.push_back(c); }
   for (int i = 0; i < N + (int)corpus.size(); ++i) {
     GpInput in = i < (int)corpus.size() ? corpus[i] : gen_gp(g);
     auto probes = gen_probes(g, in.subj, in.clip, thorough ? 120 : 60);
@@ -70,8 +77,12 @@ int main(int argc, char** argv) {
     AelTraceScope trace;
     c.Execute(ct, fr, sol);
     emitM("ael-trace.degenerate", trace.request(false, (int)ct, (int)fr), "ok");
+    if (!ael_trace().bad_join.empty())
+      emitF("join-of-distant-edges", "ct=" + std::to_string((int)ct) + " fr=" + std::to_string((int)fr) + " subj=" + S(s) + " clip=" + S(cl) + ": " + ael_trace().bad_join);
     stat("trace.items", ael_trace().nitems);
   }
+  stat("trace.join_events", ael_trace().njoin_events);
+  stat("trace.join_events_distance_checked", ael_trace().njoin_checked);
   stat("trace.edge_observations", ael_trace().nedges);
   stat("trace.joined_edge_observations", ael_trace().njoined);
   stat("trace.horizontal_edge_observations", ael_trace().nhorz);
